@@ -65,6 +65,7 @@ type nsWorldOpts struct {
 	v6                 bool    // allow second (IPv6) overlay network on v2 identities
 	staticAll          bool    // every host statically knows every other host
 	partition          float64 // with a relay: probability that the direct path between two hosts is blocked
+	multinet           bool    // v2-only identities may carry a first network nobody else shares, before the common one
 	cipher             string
 	extra              func(spec *nsNodeSpec, cfg nsM)
 }
@@ -130,6 +131,11 @@ func nsGenWorld(rt *rapid.T, s *nsSim, o nsWorldOpts) *nsWorld {
 		sp.nets = []netip.Prefix{nsOverlayAddr(i)}
 		if o.v6 && sp.versions[0] == cert.Version2 && len(sp.versions) == 1 && rapid.IntRange(0, 2).Draw(rt, name+".v6") == 0 {
 			sp.nets = append(sp.nets, nsOverlayAddr6(i))
+		}
+		if o.multinet && sp.versions[0] == cert.Version2 && len(sp.versions) == 1 && rapid.IntRange(0, 2).Draw(rt, name+".multinet") == 0 {
+			// the node's primary network is one the others are not part of; the shared network comes second
+			private := netip.PrefixFrom(netip.AddrFrom4([4]byte{10, byte(100 + i), 0, byte(200 - i)}), 24)
+			sp.nets = append([]netip.Prefix{private}, sp.nets...)
 		}
 		w.specs = append(w.specs, sp)
 		return sp
@@ -343,6 +349,11 @@ func (w *nsWorld) sendTagged(src, dst int, dstAddr netip.Addr, size int) *nsInje
 	for _, a := range w.nodes[src].id.addrs() {
 		if a.Is4() == dstAddr.Is4() {
 			srcAddr = a
+		}
+	}
+	for _, n := range w.nodes[src].id.nets {
+		if n.Masked().Contains(dstAddr) {
+			srcAddr = n.Addr()
 		}
 	}
 	if !srcAddr.IsValid() {
@@ -820,6 +831,19 @@ func nsSetHeader(b []byte, typ header.MessageType, sub header.MessageSubType, id
 	b[1] = byte(sub)
 	binary.BigEndian.PutUint32(b[4:8], idx)
 	binary.BigEndian.PutUint64(b[8:16], ctr)
+}
+
+// commonAddr returns an address of node dst that lies inside one of node src's overlay networks
+// (what src can actually route to); falls back to dst's first address.
+func (w *nsWorld) commonAddr(src, dst int) netip.Addr {
+	for _, d := range w.specs[dst].nets {
+		for _, sn := range w.specs[src].nets {
+			if sn.Masked().Contains(d.Addr()) {
+				return d.Addr()
+			}
+		}
+	}
+	return w.specs[dst].nets[0].Addr()
 }
 
 func (w *nsWorld) describe() string {
